@@ -28,6 +28,7 @@ func Intent(spec *Spec) *proj.Module {
 	// mixins: the types of the mixed-in application become types of the application (own declarations win)
 	for _, an := range sortedApps(m) {
 		a := m.Apps[an]
+		applyCollector(a)
 		for _, mx := range a.Mixins {
 			src, ok := m.Apps[strings.Join(mx, " :: ")]
 			if !ok {
@@ -54,6 +55,45 @@ func Intent(spec *Spec) *proj.Module {
 		}
 	}
 	return m
+}
+
+const CollectorName = ".. * <- *"
+
+// applyCollector: what a `.. * <- *:` block means. `Target <- Endpoint [attrs]` declares these attributes on EVERY
+// call of that target and endpoint written anywhere in the application's endpoints (any nesting depth, however
+// often); `EndpointName [attrs]` / `VERB /path [attrs]` declares them on that endpoint. Nothing else changes.
+func applyCollector(a *proj.App) {
+	ce, ok := a.Eps[CollectorName]
+	if !ok {
+		return
+	}
+	for _, cs := range ce.Stmts {
+		switch cs.Kind {
+		case "action":
+			if e, ok := a.Eps[cs.Text]; ok {
+				e.Attrs = mergeDeclared(copyAttrs(e.Attrs), cs.Attrs)
+			}
+		case "call":
+			for name, e := range a.Eps {
+				if name != CollectorName {
+					markCalls(e.Stmts, cs)
+				}
+			}
+		}
+	}
+}
+
+func markCalls(ss []proj.Stmt, cs proj.Stmt) {
+	for i := range ss {
+		s := &ss[i]
+		if s.Kind == "call" && s.Ep == cs.Ep && strings.Join(s.Target, "\x00") == strings.Join(cs.Target, "\x00") && len(s.Target) == len(cs.Target) {
+			s.Attrs = mergeDeclared(copyAttrs(s.Attrs), cs.Attrs)
+		}
+		markCalls(s.Body, cs)
+		for j := range s.Choices {
+			markCalls(s.Choices[j].Body, cs)
+		}
+	}
 }
 
 func sortedApps(m *proj.Module) []string {
@@ -395,6 +435,27 @@ func intentMember(m *proj.Module, a *proj.App, key string, mem Member) {
 			src.Eps[mem.Name] = ev
 		}
 		ev.Stmts = append(ev.Stmts, proj.Stmt{Kind: "call", Target: append([]string(nil), a.Parts...), Ep: name})
+	case MCollector:
+		e, ok := a.Eps[CollectorName]
+		if !ok {
+			e = &proj.Endpoint{Name: CollectorName}
+			a.Eps[CollectorName] = e
+		}
+		if len(mem.Collector) > 0 { // a block with entries is THE collector of the application
+			e.Stmts = nil
+			for _, c := range mem.Collector {
+				st := proj.Stmt{Attrs: entriesAttrs(c.Attribs)}
+				switch c.Kind {
+				case CCall:
+					st.Kind, st.Target, st.Ep = "call", append([]string(nil), c.Target...), c.Ep
+				case CAction:
+					st.Kind, st.Text = "action", c.Ep
+				default:
+					st.Kind, st.Text = "action", c.Verb+" "+c.Ep
+				}
+				e.Stmts = append(e.Stmts, st)
+			}
+		}
 	}
 }
 
@@ -407,9 +468,14 @@ func intentRest(a *proj.App, n *RestNode, prefix string, inherited []proj.Attrs,
 		if s.Var != "" {
 			path += "/{" + s.Var + "}"
 			var t *proj.Type
-			if s.VarTy.Kind == XNative {
+			switch s.VarTy.Kind {
+			case XNative:
 				t = tyIntent(a.Parts, nil, s.VarTy, SizeSpec{})
-			} else {
+			case XRef:
+				// `{v <: Type.field}` / `{v <: App.Type}`: a path variable's reference is kept as one dotted path
+				t = &proj.Type{Kind: "ref", Ctx: &proj.Scope{App: a.Parts},
+					Ref: &proj.Scope{Path: append(append([]string(nil), s.VarTy.RefApp...), s.VarTy.RefPath...)}}
+			default:
 				t = &proj.Type{Kind: "ref", Ctx: &proj.Scope{App: a.Parts}, Ref: &proj.Scope{Path: []string{s.VarTy.Local}}}
 			}
 			urlParams = append(urlParams, proj.Param{Name: s.Var, Type: t})
